@@ -199,6 +199,10 @@ class Environment(object):
         except AttributeError:
             pass
         else:
-            self.conn.send_bytes(dumps(('close', (), {})))
-            self.conn.close()
-            del self.conn
+            try:
+                self.conn.send_bytes(dumps(('close', (), {})))
+            except (OSError, EOFError):  # the server is gone already: nothing to tell it
+                pass
+            finally:
+                self.conn.close()
+                del self.conn
